@@ -7,6 +7,7 @@ import (
 	"testing"
 
 	"github.com/bronlabs/bron-crypto/pkg/proofs/sigma/compiler"
+	"github.com/bronlabs/bron-crypto/pkg/proofs/sigma/compiler/fiatshamir"
 	"verif/harness/vlib"
 )
 
@@ -20,12 +21,20 @@ const (
 	// sigor.Compose around sigor / cartesian compositions) the dereference happens inside such a goroutine and
 	// cannot be recovered: the verifier's PROCESS dies. Those inputs are therefore not executed at all (crashRisk).
 	knownNilComponent = "C08-nil-component-panic"
+	// The CBOR decoders of znstar.PaillierGroupElement / RSAGroupElement (ciphertexts, nonces, ring-Pedersen
+	// commitments inside the Paillier / CGGMP21 proofs) use the fields of their DTO (n, v, arithmetic) without a
+	// nil check: a null or missing field panics INSIDE UnmarshalCBOR (errs.Must "value must not be nil" in
+	// NatPlus.Square, or a nil dereference), before any verification.
+	knownElementDecode = "C08-znstar-element-null-field-decode-panic"
 )
 
-var knownIDs = []string{knownNilComponent}
+var knownIDs = []string{knownNilComponent, knownElementDecode}
 
 func matchKnown(in inst, cn compiler.Name, m mutation, violation, panicMsg string) string {
 	switch {
+	case violation == "panic" && strings.HasPrefix(panicMsg, "typed decoding: ") && (m.op == "null" || m.op == "map-drop") &&
+		(strings.Contains(panicMsg, "value must not be nil") || strings.Contains(panicMsg, "nil pointer dereference")):
+		return knownElementDecode
 	case violation == "panic" && (strings.Contains(panicMsg, "nil pointer dereference") || strings.Contains(panicMsg, "called using nil")) &&
 		(m.op == "null" || m.op == "map-drop"):
 		return knownNilComponent
@@ -117,16 +126,20 @@ var enumOps = []string{"null", "map-drop", "key-flip", "arr-trunc", "arr-extend"
 func TestTamperEveryClass(t *testing.T) {
 	const test = "TamperEveryClass"
 	type probe struct {
-		sp spec
-		cn compiler.Name
+		sp    spec
+		cn    compiler.Name
+		heavy *heavySpec
 	}
 	var probes []probe
+	for hi, kind := range []string{"nthroot", "prm", "cggmp21-enc", "cggmp21-fac", "cggmp21-blummod"} {
+		probes = append(probes, probe{cn: fiatshamir.Name, heavy: &heavySpec{Kind: kind, Bits: 512, PK: "safe", I: hi, D: 1 + hi%5, Seed: uint64(hi)}})
+	}
 	i := 0
 	for _, kind := range append(append([]string(nil), baseKinds...), composedKinds...) {
 		for _, cn := range allCompilers {
 			i++
 			n := 2
-			probes = append(probes, probe{spec{Kind: kind, Group: []string{"k256", "ed25519", "bls12381g1"}[i%3], Seed: uint64(100 + i), WClass: "rnd", Gen: "std", N: n, Branch: i % 2}, cn})
+			probes = append(probes, probe{spec{Kind: kind, Group: []string{"k256", "ed25519", "bls12381g1"}[i%3], Seed: uint64(100 + i), WClass: "rnd", Gen: "std", N: n, Branch: i % 2}, cn, nil})
 		}
 	}
 	hits := map[string][]string{}
@@ -135,12 +148,19 @@ func TestTamperEveryClass(t *testing.T) {
 		if !vlib.Mine(pi) {
 			continue
 		}
-		in := buildSpec(pr.sp)
+		var in inst
+		what := pr.sp.String()
+		if pr.heavy != nil {
+			in, what = buildHeavy(*pr.heavy), pr.heavy.String()
+			pr.sp.Kind, pr.sp.Seed = pr.heavy.Kind, pr.heavy.Seed
+		} else {
+			in = buildSpec(pr.sp)
+		}
 		cs := ctxSpec{Seed: pr.sp.Seed, BindPID: true, PID: 1}
-		proof := proveAndCheck(t, in, pr.cn, cs, pr.sp.Seed, pr.sp.String())
+		proof := proveAndCheck(t, in, pr.cn, cs, pr.sp.Seed, what)
 		canonO, err := in.Canon(pr.cn, proof)
 		if err != nil {
-			t.Fatalf("%v: honest proof undecodable: %v", pr.sp, err)
+			t.Fatalf("%v: honest proof undecodable: %v", what, err)
 		}
 		root, err := decodeTree(proof)
 		if err != nil {
@@ -151,6 +171,9 @@ func TestTamperEveryClass(t *testing.T) {
 			for _, op := range enumOps {
 				if seen[op+s.class] {
 					continue
+				}
+				if pr.heavy != nil && !(op == "null" || op == "map-drop" || op == "arr-trunc" || op == "arr-extend" || op == "bstr-trunc-back" || op == "bstr-extend-back") {
+					continue // expensive verifications: the structural operators only
 				}
 				r2, _ := decodeTree(proof)
 				s2 := walk(r2)[si]
@@ -168,7 +191,9 @@ func TestTamperEveryClass(t *testing.T) {
 					continue
 				}
 				sites++
-				canonM, derr := in.Canon(pr.cn, m.bytes)
+				var canonM []byte
+				var derr error
+				dmsg, dstack := catchPanic(func() { canonM, derr = in.Canon(pr.cn, m.bytes) })
 				verdict := "reject:value-changed"
 				switch {
 				case derr != nil:
@@ -178,7 +203,12 @@ func TestTamperEveryClass(t *testing.T) {
 				}
 				ctxV, _ := cs.build(verifierID)
 				var verr error
-				msg, stack := catchPanic(func() { verr = in.Verify(pr.cn, ctxV, 1, "", false, m.bytes, false) })
+				msg, stack := dmsg, dstack
+				if dmsg != "" {
+					msg = "typed decoding: " + dmsg
+				} else {
+					msg, stack = catchPanic(func() { verr = in.Verify(pr.cn, ctxV, 1, "", false, m.bytes, false) })
+				}
 				violation := ""
 				switch {
 				case msg != "":
@@ -217,5 +247,5 @@ func TestTamperEveryClass(t *testing.T) {
 			"(null / map-drop mutants of and^n(or^m(..)) and or^n(andc(..)) shapes are NOT executed: there the dereference happens in an errgroup goroutine and kills the process; they are counted under excluded_known): %s",
 			len(hits[id]), sites, what))
 	}
-	vlib.Exhaustive("one proof per (15 protocol / composition kinds x 3 compilers): every site class x 12 deterministic operator variants")
+	vlib.Exhaustive("one proof per (15 protocol / composition kinds x 3 compilers) (every site class x 12 deterministic operator variants) and per (nthroot, prm, cggmp21 enc / fac / blummod x Fiat-Shamir: every site class x 6 structural variants)")
 }
